@@ -19,6 +19,7 @@ from .shrink import shrink, plan_size, dump
 from .fingerprint import digest
 
 VERIF = seams.VERIF_DIR
+OUT = os.environ.get("HIVESIM_OUT_DIR") or VERIF   # evidence/ and replays/ go here (mutant runs redirect it)
 DEFAULT_SEED = 20260926
 
 BUDGET = {
@@ -189,11 +190,11 @@ def check(prop, tier="quick", base_seed=None, workers=None, n_override=None, wal
     lines = []
     n_viol = 0
     replays = []
-    os.makedirs(os.path.join(VERIF, "replays", prop), exist_ok=True)
+    os.makedirs(os.path.join(OUT, "replays", prop), exist_ok=True)
     # ---- corpus: the minimised replay of every confirmed (and since repaired) finding is always re-run
     corpus_dir = os.path.join(VERIF, "corpus", prop)
     corpus_n = corpus_hit = 0
-    if os.path.isdir(corpus_dir):
+    if os.path.isdir(corpus_dir) and os.environ.get("HIVESIM_NO_CORPUS") != "1":
         for name in sorted(os.listdir(corpus_dir)):
             if not name.endswith(".json"):
                 continue
@@ -250,8 +251,8 @@ def check(prop, tier="quick", base_seed=None, workers=None, n_override=None, wal
     ev = build_evidence(prop, tier, base_seed, driver, results, extra, n_viol, wall, harness_errors, aborted, n)
     ev["coverage"]["corpus_replays"] = corpus_n
     ev["coverage"]["corpus_replays_reproduced"] = corpus_hit
-    os.makedirs(os.path.join(VERIF, "evidence"), exist_ok=True)
-    with open(os.path.join(VERIF, "evidence", f"{prop}.json"), "w") as f:
+    os.makedirs(os.path.join(OUT, "evidence"), exist_ok=True)
+    with open(os.path.join(OUT, "evidence", f"{prop}.json"), "w") as f:
         json.dump(ev, f, indent=1, sort_keys=True, default=str)
     for l in lines:
         print(l, file=out)
@@ -304,7 +305,7 @@ def minimise_and_save(driver, prop, r, v, key):
         rep = {"version": 1, "driver": driver.name, "property": prop, "key": key, "rule": mine[0]["rule"], "step": mine[0]["step"],
                "msg": mine[0]["msg"], "seed": r["seed"], "history_digest": run.history.hexdigest(), "size": plan_size(small),
                "plan": small}
-    path = os.path.join(VERIF, "replays", prop, re.sub(r'[^A-Za-z0-9_.-]', '_', key) + f"_{r['seed']}.json")
+    path = os.path.join(OUT, "replays", prop, re.sub(r'[^A-Za-z0-9_.-]', '_', key) + f"_{r['seed']}.json")
     dump(rep, path)
     ok, note = replay_fresh(path)
     return path, ok, note
